@@ -17,8 +17,29 @@ Programs: the pipeline language of C24 plus `loop id mainLazy extra body`
   `prev -> batch()|batch_lazy() -> [union with src2 -> batch()|batch_lazy()] -> body -> all_iterations() -> next`
 A loop body starts with an iteration marker (a `fold` on a `tee` branch that reports once per run of its subgraph),
 recorded as tap `100 + id`.
+
+Stateful operators with a persistence argument (`op pos kind static tap`), at any depth:
+  unique      `-> unique::<'p>()`                                                        (inline)
+  enumerate   `-> enumerate::<'p>() -> map(|(i, x)| x + 100 * i)`                         (inline)
+  fold        `w = prev -> tee(); w -> fold::<'p>(|| 0, |a, x| *a += x) -> for_each(record tap); next = w`
+  reduce      the same with `reduce::<'p>(|a, x| *a += x)`            (emits nothing while its `Option` is `None`)
+  foldKeyed   the same with `map(|x| (x % 2, x)) -> fold_keyed::<'p>(|| 0, |a, x| *a += x)`, recorded `k * 100000 + sum`
+Their state is kept as the list of items absorbed since the last reset (`unique`: the distinct ones); the Rust
+accumulators are functions of it (`fold`: the sum, `reduce`: `None` iff empty, `enumerate`: the counter is its length,
+`fold_keyed`: one sum per key present).  It lives in the slot `pos` of the environment, in the field `buf` (`back`
+stays empty) — the same storage record the delayed handoffs use.  The side-branch operators are on the push side of
+the `tee`, where all three emit their whole state each time their subgraph runs (every loop iteration).  The state is
+touched by nothing but the operator itself and the end-of-tick code `#( #op_tick_end_code )*`, which `as_code` collects
+from *every* operator of *every* subgraph (`op_tick_end_code.push(write_tick_end)` in the per-operator loop, whatever
+the subgraph's `loop_id`) and runs once per tick, after the body and the tick-level swaps: also for an operator in a
+nested `while` loop the `'tick` reset happens at the end of the tick, not per iteration.
 -/
+import HvTick.Model.Tick
 namespace HvTick.Loop
+
+inductive OpKind
+  | unique | enumerate | fold | reduce | foldKeyed
+  deriving DecidableEq, Repr
 
 inductive Node
   | map (k : Int)
@@ -27,10 +48,14 @@ inductive Node
   | defer (pos : Nat) (lazy : Bool)
   /-- `u = union(); prev -> u; t = u -> tee(); t -> filter(<n) -> map(+1) -> defer_tick[_lazy]() -> u` -/
   | cycle (pos : Nat) (lazy : Bool) (n : Int)
+  /-- a stateful operator with persistence `'static` (`static = true`) or `'tick`; `pos` names its state slot,
+  `tap` is where the side-branch kinds record -/
+  | op (pos : Nat) (k : OpKind) (static : Bool) (tap : Nat)
   /-- `extra = some l`: a second entry from the second source through `batch()` (l = false) / `batch_lazy()` -/
   | loop (id : Nat) (mainLazy : Bool) (extra : Option Bool) (body : List Node)
 
-/-- a delayed handoff: producer side `buf`, consumer side `back` -/
+/-- a storage slot: for a delayed handoff the producer side `buf` and the consumer side `back`; for a stateful
+operator its state in `buf` -/
 structure H where
   buf : List Int := []
   back : List Int := []
@@ -61,6 +86,25 @@ def gateOf (entries : List (Bool × List Int)) (delays : List (Nat × Bool)) (en
 /-- `#( #swap_code )*` -/
 def swapAll (delays : List (Nat × Bool)) (env : Env) : Env :=
   delays.foldl (fun e d => let h := e.get d.1; e.set d.1 ⟨h.back, h.buf⟩) env
+
+/-- `enumerate`'s numbering continued from counter value `n`, folded into the item as `x + 100 * i` -/
+def enumFrom : Nat → List Int → List Int
+  | _, [] => []
+  | n, x :: xs => (x + 100 * (n : Int)) :: enumFrom (n + 1) xs
+
+/-- the keys (`x % 2`, Rust's truncating remainder) present in a state -/
+def keysOf (l : List Int) : List Int := (l.map (·.tmod 2)).eraseDups
+
+/-- one run of a stateful operator: state (items absorbed so far) and input batch ↦ new state, batch handed on,
+values recorded at the operator's tap -/
+def opStep : OpKind → List Int → List Int → List Int × List Int × List Int
+  | .unique, log, b => let r := Tick.dedup log b; (r.1, r.2, [])
+  | .enumerate, log, b => (log ++ b, enumFrom log.length b, [])
+  | .fold, log, b => (log ++ b, b, [Tick.sum (log ++ b)])
+  | .reduce, log, b => (log ++ b, b, if (log ++ b).isEmpty then [] else [Tick.sum (log ++ b)])
+  | .foldKeyed, log, b =>
+    let all := log ++ b
+    (all, b, (keysOf all).map fun k => k * 100000 + Tick.sum (all.filter (·.tmod 2 == k)))
 
 /-- state of a running `while`: delayed handoffs, the entry buffers (main, extra), the exit buffer, tap records -/
 structure LSt where
@@ -101,6 +145,9 @@ def runNodes : Nat → Nat → List Node → Env → List Int → List Int → O
       let h := env.get p
       let inn := b ++ h.back
       runNodes f d ns (env.set p ⟨(inn.filter (· < m)).map (· + 1), []⟩) inn s2
+    | .op p k _ t =>
+      let r := opStep k (env.get p).buf b
+      (runNodes f d ns (env.set p ⟨r.1, []⟩) r.2.1 s2).map fun q => (q.1, q.2.1, (t, r.2.2) :: q.2.2)
     | .loop id ml ex body =>
       let delays := directDelays body
       let extraB := if ex.isSome then s2 else []
@@ -133,6 +180,30 @@ def allDelays : Nat → Nat → List Node → List (Nat × Bool × Bool)
   | f + 1, d, .loop _ _ _ body :: r => allDelays f (d + 1) body ++ allDelays f d r
   | f + 1, d, _ :: r => allDelays f d r
 
+/-- all stateful operators of a program, wherever they stand: (pos, static, inside a loop block) — the operators
+`as_code` collects `write_tick_end` from -/
+def allOps : Nat → Nat → List Node → List (Nat × Bool × Bool)
+  | 0, _, _ => []
+  | _ + 1, _, [] => []
+  | f + 1, d, .op p _ st _ :: r => (p, st, d != 0) :: allOps f d r
+  | f + 1, d, .loop _ _ _ body :: r => allOps f (d + 1) body ++ allOps f d r
+  | f + 1, d, _ :: r => allOps f d r
+
+/-- `#( #op_tick_end_code )*`: `Persistence::Tick => reset`, `Persistence::Static => nothing`, over the collected
+operators.  `inLoops = false` is the variant that collects the code only from operators outside every loop block. -/
+def tickEndAll (inLoops : Bool) : List (Nat × Bool × Bool) → Env → Env
+  | [], e => e
+  | (p, st, inl) :: r, e => tickEndAll inLoops r (if !st && (inLoops || !inl) then e.set p default else e)
+
+/-- the two places where the emitted tick closure treats loop blocks specially; `⟨true, true⟩` is `as_code`
+(re-extracted from meta_graph.rs on every run: `Gen.schedRootLoopChecksBack`, `Gen.tickEndCollectedInLoops`) -/
+structure Cfg where
+  /-- the schedule check reads `back` (not `buf`) of a `defer_tick` handoff consumed in a root-level loop, because
+  that handoff was already swapped inside the loop's `if` gate -/
+  schedRootBack : Bool
+  /-- `write_tick_end` is collected from operators inside loop blocks too -/
+  tickEndInLoops : Bool
+
 structure RSt where
   prog : List Node
   env : Env
@@ -140,14 +211,29 @@ structure RSt where
   deriving Inhabited
 
 /-- the tick closure: body; `non_lazy_schedule` check (`back` for handoffs inside a root loop, `buf` otherwise);
-tick-level swap of the delayed handoffs outside every loop.  Returns taps and whether another tick was requested. -/
-def tickClosure (fuel : Nat) (s : RSt) (b1 b2 : List Int) : Option (RSt × Outs × Bool) :=
+tick-level swap of the delayed handoffs outside every loop; per-operator tick-end code; `__end_tick`.
+Returns taps and whether another tick was requested. -/
+def tickClosureWith (c : Cfg) (fuel : Nat) (s : RSt) (b1 b2 : List Int) : Option (RSt × Outs × Bool) :=
   match runNodes fuel 0 s.prog s.env b1 b2 with
   | some r =>
     let sched := (allDelays fuel 0 s.prog).any fun d =>
-      !d.2.1 && !(if d.2.2 then (r.1.get d.1).back else (r.1.get d.1).buf).isEmpty
+      !d.2.1 && !(if c.schedRootBack && d.2.2 then (r.1.get d.1).back else (r.1.get d.1).buf).isEmpty
     let env' := swapAll (directDelays s.prog) r.1
-    some ({ s with env := env', tick := s.tick + 1 }, r.2.2, sched)
+    let env'' := tickEndAll c.tickEndInLoops (allOps fuel 0 s.prog) env'
+    some ({ s with env := env'', tick := s.tick + 1 }, r.2.2, sched)
   | none => none
+
+def tickClosure : Nat → RSt → List Int → List Int → Option (RSt × Outs × Bool) := tickClosureWith ⟨true, true⟩
+
+/-- `run_available_sync` when nothing is sent during the call (`fuel'` ticks at most): `can_start_tick := false`, then
+`loop { run_tick; if !can_start_tick.swap(false) { break } }` — the flag can then only be set by the closure's own
+`schedule_subgraph(true)`; the first tick sees what was sent before the call, the later ones nothing new. -/
+def runAvailableWith (c : Cfg) (fuel : Nat) : Nat → RSt → List Int → List Int → Option (RSt × List Outs)
+  | 0, _, _, _ => none
+  | n + 1, s, a, b =>
+    match tickClosureWith c fuel s a b with
+    | some (s', o, sched) =>
+      if sched then (runAvailableWith c fuel n s' [] []).map fun r => (r.1, o :: r.2) else some (s', [o])
+    | none => none
 
 end HvTick.Loop
